@@ -168,3 +168,17 @@ Fixpoint code_recorded (seen : list asession) (tr : list (call * reply)) : bool 
                 | _ => true end in
       andb ok (code_recorded (match r with RASess s => s :: seen | _ => seen end) t)
   end.
+
+(* ---- histories with crashes: (o, Some k) = the process stops after k storage calls of o (no
+   response, clock unchanged), a restarted instance then serves the rest over the same store ---- *)
+Definition crash_step (w : world) (st : state) (n : nat) (oc : op * option nat) : state :=
+  match oc with
+  | (OpTick d, _) => mkState (s_store st) (s_now st + d)%Z
+  | (o, None) => fst (step w st n o)
+  | (o, Some k) => mkState (fst (run_prefix k (handler w n (s_now st) o) (s_store st))) (s_now st)
+  end.
+Fixpoint run_crashy (w : world) (st : state) (n : nat) (ops : list (op * option nat)) : state :=
+  match ops with
+  | [] => st
+  | oc :: rest => run_crashy w (crash_step w st n oc) (S n) rest
+  end.
